@@ -605,7 +605,12 @@ Inductive callable :=
 | CFun (f : nat)
 | CPartial (c : callable)
 | CMethod (c : callable)
-| CWrap (id : nat) (adapting : bool) (c : callable).
+| CWrap (id : nat) (adapting : bool) (c : callable)
+| CInst (own : nat) (bases : list nat).
+(* CInst: an object whose attributes are looked up along a chain - a callable instance (own) of a
+   class / subclass (bases = the classes of its MRO), or a class itself (own) with its base classes.
+   It has no __func__ and is no partial, so it is its own underlying callable; the native mark set by
+   register_native on a class is an ordinary class attribute and getattr finds it from instances. *)
 
 (* _get_underlying_func: the `while True` loop peels one wrapper per iteration *)
 Fixpoint underlying (c : callable) : nat :=
@@ -614,12 +619,23 @@ Fixpoint underlying (c : callable) : nat :=
   | CPartial c' => underlying c'
   | CMethod c' => underlying c'
   | CWrap id _ _ => id
+  | CInst own _ => own
+  end.
+
+(* the objects getattr(underlying, flag) consults: the object itself, then the classes of its MRO *)
+Fixpoint lookup_chain (c : callable) : list nat :=
+  match c with
+  | CFun f => [f]
+  | CPartial c' => lookup_chain c'
+  | CMethod c' => lookup_chain c'
+  | CWrap id _ _ => [id]
+  | CInst own bases => own :: bases
   end.
 
 (* the flag attribute of the function objects *)
 Definition flags := nat -> bool.
 
-Definition is_native (fl : flags) (c : callable) : bool := fl (underlying c).
+Definition is_native (fl : flags) (c : callable) : bool := existsb fl (lookup_chain c).
 Definition register_native (fl : flags) (c : callable) : flags :=
   fun f => if Nat.eqb f (underlying c) then true else fl f.
 Definition unregister_native (fl : flags) (c : callable) : flags :=
@@ -946,11 +962,15 @@ Fixpoint last_op_on (f : nat) (ops : list reg_op) (cur : option bool) : option b
   | UnregOp c :: r => last_op_on f r (if Nat.eqb (underlying c) f then Some false else cur)
   end.
 
+(* registered by the history: the last operation on the object was a registration *)
+Definition reg_hist (ops : list reg_op) (f : nat) : bool :=
+  match last_op_on f ops None with Some true => true | _ => false end.
+
+(* ... on the callable itself or on a class it is an instance / subclass of *)
+Definition registered (ops : list reg_op) (c : callable) : bool := existsb (reg_hist ops) (lookup_chain c).
+
 Definition holds_registry (ops : list reg_op) (c : callable) (obs_native obs_same : bool) : bool :=
-  match last_op_on (underlying c) ops None with
-  | Some true => obs_native && obs_same
-  | _ => negb obs_native && negb obs_same
-  end.
+  if registered ops c then obs_native && obs_same else negb obs_native && negb obs_same.
 
 (* ---- sessions on ONE adapter instance ----
    After the history ops (register / unregister calls made so far in the session), adapt_func
@@ -973,6 +993,7 @@ Fixpoint sees (c : callable) (x : gcl) : gcl :=
   | CPartial c' => sees c' x
   | CMethod c' => sees c' x
   | CWrap _ ad c' => sees c' (through ad x)
+  | CInst _ _ => x
   end.
 
 Definition is_kdom (c : gcl) : bool := match c with KDom => true | _ => false end.
@@ -995,7 +1016,7 @@ Definition agree_session (ops : list reg_op) (adapting : bool) (q : callable) (n
    untouched; otherwise wrapped, so that what it wraps is called with the restored domain graph;
    restore_func always wraps *)
 Definition holds_session (ops : list reg_op) (adapting : bool) (q : callable) (n s recv_dom : bool) : bool :=
-  let reg := match last_op_on (underlying q) ops None with Some true => true | _ => false end in
+  let reg := registered ops q in
   Bool.eqb reg n &&
   Bool.eqb (adapting && reg) s &&
   Bool.eqb (is_kdom (sees (session_result reg adapting 0 q) (if adapting then KOpt else KDom))) recv_dom.
